@@ -166,6 +166,17 @@ CHECKS = {
              "computes (tab = 4), and show up at that position in the CLI's bare and graphical output.",
         note="Trusted: the anchor table in vf/mutate.py (calibrated against the repaired tree; it encodes which token each diagnostic documents).",
         design="4/C17"),
+    "C18": dict(
+        category="exploration",
+        technique="Hypothesis rule-based state machine over a long-lived interpreter with a probe-set invariant against fresh-process baselines; hash-seed differential in subprocesses",
+        text="A state machine draws histories of up to 50 assemblies (valid, with errors, critically aborted, crashing half way through a "
+             "raising report handler, through the CLI entry point) that deliberately reuse the probe set's file names and include paths; "
+             "after every step 12 probes are re-assembled and each result - outcome, base, bytes, output directives, every diagnostic "
+             "with severity, identifier, file and offsets, and for the CLI probe exit status, stdout and written files - must equal what a "
+             "fresh interpreter (one per probe) returned. Separately the probes and 60/200 generated programs are assembled in fresh "
+             "processes under PYTHONHASHSEED 0..N and random and must agree.",
+        note="Trusted: the fresh-process baseline. Interleavings are bounded by the drawn histories (135 in the quick tier); class-level state of a broken tree persists within a shard's process, which is what the check wants to see.",
+        design="4/C18"),
     "C19": dict(
         category="exploration",
         technique="Hypothesis multi-file programs run through the CLI with --lst; the listing is parsed and compared with the reference assembler's symbol tables and with the image",
